@@ -212,6 +212,7 @@ func (e *SrvEnv) Stop() error {
 	e.cancel()
 	err := <-e.done
 	e.wg.Wait()
+	rsocks.ResetSeg(e.Iface) // segments are per interface index and otherwise live for the whole process
 	return err
 }
 
